@@ -700,6 +700,19 @@ theorem c14_beacon_never_blocks (l : BLayer) (ph : BPhase) (r : BReq) : bHandle 
     · simp
     · exact serve_ne_deadlock _ _ hd
 
+/-- the public HTTP API: every path class in every phase is answered with a status code — the model has no panic and no
+blocking outcome (and a handler panic the model does not predict would be recovered per connection by net/http) -/
+theorem c14_http_total (ph : BPhase) (pre : HPrefix) (ep : HEp) :
+    (httpHandle ph pre ep = .ok ∨ httpHandle ph pre ep = .err) ∧ (serve .http (httpHandle ph pre ep)).isPanic = false := by
+  have h : httpHandle ph pre ep = .ok ∨ httpHandle ph pre ep = .err := by
+    simp only [httpHandle]
+    repeat' split
+    all_goals simp
+  refine ⟨h, ?_⟩
+  rcases h with h | h <;> simp [h, serve, Outcome.isPanic]
+
+example : httpHandle .running .known (.round .last) = .ok := by decide
+example : httpHandle .running .malformed .latest = .err := by decide
 example : bHandle .grpc .running (.status (some ⟨none, .self⟩)) = .ok := by decide
 example : bHandle .daemon .running (.status (some ⟨none, .nilelem⟩)) = .panic "core.(*BeaconProcess).Status" := by decide
 example : bHandle .bp .running (.sync (some ⟨none, .one⟩)) = .stream 5 := by decide
